@@ -13,6 +13,9 @@ ENV_PASSES = (
     # name, extra interpreter args, extra environment, label used in messages
     ("python-O-pass", ["-O"], {"PYTHONOPTIMIZE": "1"}, "python -O"),
     ("ambient-decimal-pass", [], {"VERIF_AMBIENT_DECIMAL": "1"}, "ambient decimal context prec=6 ROUND_UP"),
+    # ./run pins PYTHONHASHSEED=0 for reproducibility; a user's process has another seed, i.e. another iteration order
+    # of every set/dict keyed by str: answers must not depend on it
+    ("hash-seed-pass", [], {"PYTHONHASHSEED": "4242"}, "PYTHONHASHSEED=4242"),
 )
 
 
@@ -33,7 +36,8 @@ def _environment_pass(ctx, pid, name, pyargs, extra_env, label):
     'python -O': assertions stripped (PYTHONOPTIMIZE=1 is inherited by pool workers and first-use child interpreters);
     the library has >100 assert statements, and a property that only holds while they execute does not hold for a user
     running python -O.  'ambient decimal context': the application has lowered decimal precision and changed the
-    rounding mode; the library's arithmetic is integer arithmetic and must not notice.
+    rounding mode; the library's arithmetic is integer arithmetic and must not notice.  'hash seed': another string-hash
+    seed than the one ./run pins, i.e. another iteration order of sets and str-keyed dicts.
     Violations of the child are merged under their own keys (so known findings still match)."""
     import glob
     import shutil
@@ -139,6 +143,9 @@ def main(argv=None):
     if (a.tier == "thorough" or want == "1") and want != "0" and not a.only:
         for name, pyargs, extra_env, label in ENV_PASSES:
             _environment_pass(ctx, pid, name, pyargs, extra_env, label)
+        ctx.rule = (ctx.rule or "") + (" || environment passes: the quick-tier exploration is repeated in child interpreters under %s; "
+                                       "their counts are listed per pass under 'parts' and are included in the totals as (environment, case) pairs"
+                                       % ", ".join(p[3] for p in ENV_PASSES))
     rc = ctx.finish()
     print("%s tier=%s seed=%d states=%d transitions=%d executions=%d nontrivial=%d outcomes=%d violations=%d wall=%.1fs%s" % (
         pid, a.tier, seed, ctx.states, ctx.transitions, ctx.evaluations, ctx.nontrivial, len(ctx.outcomes),
